@@ -176,8 +176,13 @@ def compare_outcome(impl, model, opts=None):
     if "err" in ic or "err" in mc:
         if "err" in ic and "err" in mc:
             ie = ic["err"][0]
-            keys = ("file", "kind", "line")
-            if not any(all(ie.get(k) == me.get(k) for k in keys if k in me) for me in mc["err"]):
+            # an error whose wording is not recognised (kind "other") is still an error: only the file, when the message
+            # names one, has to agree (message texts are not part of any property)
+            if ie.get("kind") == "other":
+                ok = ie.get("file") is None or any(me.get("file") in (None, ie.get("file")) for me in mc["err"])
+            else:
+                ok = any(all(ie.get(k) == me.get(k) for k in ("file", "kind", "line") if k in me) for me in mc["err"])
+            if not ok:
                 diffs.append(("ctx.err", ic["err"], mc["err"]))
         else:
             diffs.append(("ctx", ic, mc))
@@ -189,7 +194,7 @@ def compare_outcome(impl, model, opts=None):
     ir, mr = impl.get("run", {}), model.get("run", {})
     if "err" in ir or "err" in mr:
         if "err" in ir and "err" in mr:
-            if ir["err"][0] not in mr["err"]:
+            if ir["err"][0] not in mr["err"] and ir["err"][0] != "other":
                 diffs.append(("run.err", ir["err"], mr["err"]))
         else:
             diffs.append(("run", ir, mr))
@@ -303,6 +308,77 @@ def load_known(prop):
     return out
 
 
+def eval_batch(prop, cases, opts=None):
+    """run the implementation and the model on raw cases; True where they still disagree"""
+    d = os.path.join(WORK, prop, "shrink")
+    shutil.rmtree(d, ignore_errors=True)
+    os.makedirs(d)
+    cp = os.path.join(d, "raw.jsonl")
+    with open(cp, "w") as f:
+        for c in cases:
+            f.write(json.dumps(c) + "\n")
+    sh([BWH, "replay", "--out", d, cp])
+    run_model(os.path.join(d, "cases.jsonl"), os.path.join(d, "model.jsonl"))
+    out = []
+    with open(os.path.join(d, "impl.jsonl")) as fi, open(os.path.join(d, "model.jsonl")) as fm:
+        for i, m in zip(fi, fm):
+            out.append(bool(compare_outcome(json.loads(i), json.loads(m), opts)))
+    return out
+
+
+def shrink_case(prop, case, opts=None, rounds=12):
+    """greedy reduction of a disagreeing pipeline case (fewer files, fewer lines, fewer flags) that keeps the implementation
+    and the model disagreeing; every round evaluates all candidates in one batch. Returns the smallest case found."""
+    if case.get("op") != "pipeline":
+        return None
+    raw = {k: v for k, v in case.items() if k not in ("regex", "regex_texts", "ops")}
+    raw["files"] = [{"path": f["path"], "text": f.get("text")} for f in case.get("files", [])]
+    raw["patterns"] = [e["p"] for e in case.get("regex", [])]
+    try:
+        if not eval_batch(prop, [raw], opts)[0]:
+            return None
+        lines_ok = raw.get("diff") is None and not raw.get("changes")
+        for _ in range(rounds):
+            cands = []
+            files = raw["files"]
+            if len(files) > 1:
+                for k in range(len(files)):
+                    c = dict(raw); gone = files[k]["path"]
+                    c["files"] = files[:k] + files[k + 1:]
+                    for key in ("walk", "allow", "ignore"):
+                        if isinstance(c.get(key), list):
+                            c[key] = [p for p in c[key] if p != gone]
+                    cands.append(c)
+            for key in ("enabled", "disabled"):
+                if raw.get(key):
+                    c = dict(raw); c[key] = []; cands.append(c)
+            if lines_ok:
+                for k, f in enumerate(files):
+                    if not f.get("text"):
+                        continue
+                    ls = f["text"].splitlines(keepends=True)
+                    n = len(ls)
+                    spans = []
+                    for size in sorted({max(1, n // 2), max(1, n // 4), 1}, reverse=True):
+                        spans += [(a, min(n, a + size)) for a in range(0, n, size)]
+                    for a, b in spans[:60]:
+                        if b - a >= n:
+                            continue
+                        c = dict(raw)
+                        c["files"] = files[:k] + [{"path": f["path"], "text": "".join(ls[:a] + ls[b:])}] + files[k + 1:]
+                        cands.append(c)
+            if not cands:
+                break
+            res = eval_batch(prop, cands, opts)
+            better = [c for c, r in zip(cands, res) if r]
+            if not better:
+                break
+            raw = min(better, key=lambda c: (len(c["files"]), sum(len(f.get("text") or "") for f in c["files"])))
+        return raw
+    except Exception:
+        return None
+
+
 def ops_consecutive(entry):
     """`Bw.Diff.Consec (new.length) 0 ops` for one shipped (old, new, ops) entry"""
     n, cur = len(entry.get("new", "")), 0
@@ -381,8 +457,9 @@ def correspondence(rep, rows, component, nontrivial, opts=None, known=None, orac
                 continue
             bad += 1
             if bad <= 3:
+                shrunk = shrink_case(rep.prop, case, opts) if bad == 1 else None
                 rep.violation({"property": rep.prop, "component": component, "what": "implementation disagrees with the proved model (Spec = Model is a theorem, so Code(x) != Spec(x))",
-                               "case": case, "impl": impl, "model": model,
+                               "case": case, "shrunk_case": shrunk, "impl": impl, "model": model,
                                "differences": [{"field": f, "impl": a, "model_and_spec": b} for f, a, b in diffs]})
     if bad > 3:
         print(f"  ({bad} disagreeing cases in {component}; first 3 written as replays)")
